@@ -473,6 +473,42 @@ func (s *Sim) doImport(e *exported) {
 		return
 	}
 	s.ctx.Count("probe.import_completed", 1)
+	// the restart path of an imported replica is taken again on every restart
+	// until a newer snapshot replaces the imported record (meanwhile the image
+	// of an on-disk state machine has been shrunk): in half of the runs all
+	// imported replicas lose power once more and are started again
+	if !s.ctx.Violated() && s.src.Chance(1, 2) {
+		s.ctx.Ev("import.second_restart")
+		s.ctx.Count("probe.import_second_restart", 1)
+		for _, c := range s.clients {
+			c.abandonAll()
+		}
+		s.admin = nil
+		for _, h := range listed {
+			if h.up || h.booting {
+				s.crashHost(h, false)
+			}
+		}
+		for _, h := range listed {
+			s.restartHost(h)
+		}
+		if !s.fairRounds(budget, func() bool { return s.orc.stableLeader() }) {
+			if !s.ctx.Violated() {
+				s.orc.livenessFailedFor("C20", "no leader after the second restart of the imported replicas")
+			}
+			return
+		}
+		for _, c := range s.clients {
+			c.beginFinal()
+		}
+		if !s.fairRounds(budget, s.finalDone) {
+			if !s.ctx.Violated() {
+				s.orc.livenessFailedFor("C20", "requests after the second restart of the imported replicas")
+			}
+			return
+		}
+		s.ctx.Count("probe.import_second_restart_completed", 1)
+	}
 	if !s.ctx.Violated() {
 		s.orc.finalChecks()
 	}
